@@ -211,6 +211,13 @@ class Parser:
             if isinstance(r, complex) and kind_of(a) != "complex" and kind_of(b) != "complex":
                 c.dom.require(False)   # negative base to a fractional power: outside the real domain
             return r
+        if kind_of(b) != "complex":
+            # a pole: zero to a negative power (only a constant exponent tells its sign)
+            import z3
+            eb = z3.simplify(b.re)
+            neg = (z3.is_int_value(eb) and eb.as_long() < 0) or (z3.is_rational_value(eb) and eb.numerator_as_long() < 0)
+            if neg:
+                c.dom.require(z3.Or(a.re != 0, a.im != 0) if a.kind == "complex" else a.re != 0)
         return c.alg.power(a, b)
 
     def func(self, name, a):
